@@ -13,7 +13,7 @@ from ..tables import routing as T
 from ..tables import scheduling as TS
 from .C01 import check_literals, mask_root, bound_state_exact
 
-FLOOR = 115
+FLOOR = 118
 EXPLANATION = (
     "Static comparison normal forms: each constraint comparison reaching a feasibility mask (13 routing env classes, FJSP/JSSP "
     "availability) is matched to its reference literal and must be no tighter than the ground-truth inequality "
